@@ -304,7 +304,9 @@ def mutate(rnd, seed):
             elif op == 'drop':
                 query.pop(i)
             elif op == 'key':
-                query[i] = (rnd.choice([key + '1', key + '_', key + 'é', key.upper(), 'resources' + 'x' * 70, 'bogus']), val)
+                # (also the key with white space around it: patterns anchored with $ admit a trailing newline)
+                query[i] = (rnd.choice([key + '1', key + '_', key + 'é', key.upper(), 'resources' + 'x' * 70, 'bogus',
+                                        key + '\n', key + '\n', key + ' ', ' ' + key, key + '\t', key + '\r\n', key + '\x00']), val)
             else:
                 query.append((key, rnd.choice(STRS)))
         elif k == 'addquery':
